@@ -31,3 +31,18 @@ func VH_C19_conversions_footprint() {
 	_ = EncodeLocalTimeZoneToNas("+08:00")
 	vrt.FootprintEnd("conversion helpers write only their receiver and fresh memory")
 }
+
+// serialisers and read-only converters on shared (not owned) values: a parsed PCO list, PSI octets, an NSSAI
+// element: nothing reachable from them may be written, not even with the value that is already there
+func VH_C19_shared_serialisers_footprint() {
+	pco := NewProtocolConfigurationOptions()
+	_ = pco.UnMarshal([]byte{0x80, vrt.U8("i0"), vrt.U8("i1"), 2, vrt.U8("c0"), vrt.U8("c1"), vrt.U8("j0"), vrt.U8("j1"), 0})
+	nssai := &nasType.RequestedNSSAI{Iei: 0x2f, Len: 5, Buffer: []byte{4, vrt.U8("sst"), vrt.U8("sd0"), vrt.U8("sd1"), vrt.U8("sd2")}}
+	psi := vrt.Bytes("psi", 2)
+	vrt.FootprintBegin()
+	_ = pco.Marshal()
+	_ = pco.Marshal()
+	_, _ = RequestedNssaiToModels(nssai)
+	_ = PSIToBooleanArray(psi)
+	vrt.FootprintEnd("serialising or converting a shared value writes nothing reachable from it")
+}
